@@ -149,6 +149,10 @@ def run(chk):
         if c["wf_track"]:
             accept.append(canon_rects(c["rects_track"]))
         if not accept:
+            if c.get("net_conflict_only"):
+                # two different nets on one wire piece: outside the property's domain ("differing nets separated by cuts")
+                chk.cov["out_of_domain_net_conflicts"] = chk.cov.get("out_of_domain_net_conflicts", 0) + 1
+                continue
             chk.violation(f"no-tiling-exists-but-compiled:{feats}", "RawExporter", desc, {"got": got[:8]})
             continue
         if got not in accept:
@@ -177,7 +181,8 @@ def run(chk):
         assumptions=["cut, via and signal-track widths are even (otherwise 'centred' is not representable on the integer grid)",
                      "an instance must block the tracks it overlaps and may block the whole period (both accepted)",
                      "an error is always acceptable (the statement allows it); where no tiling exists it is required",
-                     "zero-area rectangles are ignored; abutting same-net pieces of one track are merged before comparing"],
+                     "zero-area rectangles are ignored; abutting same-net pieces of one track are merged before comparing",
+                     "a cell that puts two different nets on one wire piece is outside the domain (\"differing nets separated by cuts\"): only totality is required there"],
         extra={"exhaustive": True})
 
 
